@@ -25,6 +25,38 @@ type Leaf struct {
 	Pos     token.Pos // position of the return
 	Effects []Effect  // stores to non-local memory, map updates and calls, in path order (only with LeafOptions.Effects)
 	Blocks  []int     // indices of the blocks on the path
+	// with LeafOptions.CutLoops:
+	Cuts []Cut    // loop headers passed on the way (the loop state was replaced by symbolic variables there)
+	End  *LoopEnd // non-nil: the path ends on arriving at a loop header instead of at a return
+}
+
+// Cut marks the point of a path where a loop header was entered for the first
+// time: the guards and effects before it belong to the code before the loop;
+// after it the header's φ-nodes stand for an arbitrary iteration (PhiVar).
+type Cut struct {
+	Header *ssa.BasicBlock
+	NG, NE int // number of guards / effects collected before the cut
+}
+
+// LoopEnd describes the arrival at a loop header: from outside the loop (the
+// initial state) or over a back edge (the state after one more iteration).
+type LoopEnd struct {
+	Header *ssa.BasicBlock
+	Back   bool
+	State  map[*ssa.Phi]*Term // value of each φ of the header on arrival
+}
+
+// PhiVar is the symbolic variable that stands for a loop-header φ in an arbitrary iteration.
+func PhiVar(p *ssa.Phi) *Term { return &Term{Op: OPhi, N: regID(p), Str: p.Comment} }
+
+// isLoopHeader: the block is the target of a back edge.
+func isLoopHeader(b *ssa.BasicBlock) bool {
+	for _, p := range b.Preds {
+		if b.Dominates(p) {
+			return true
+		}
+	}
+	return false
 }
 
 // Effect is one side effect or call executed on a path.
@@ -88,6 +120,11 @@ type LeafOptions struct {
 	Forward  bool
 	MaxPaths int
 	Effects  bool
+	// CutLoops: loops of the function itself are not unrolled but cut at their headers: a path ends when it
+	// arrives at a header (Leaf.End), and is continued from the header with the loop state made symbolic, so
+	// that one arbitrary iteration and the code after the loop are enumerated under what the code before the
+	// loop established (Leaf.Cuts). Callees expanded in place must still be loop-free or unrollable.
+	CutLoops bool
 	cache    map[*ssa.Function][]*Leaf
 	stack    map[*ssa.Function]bool
 	site     *int // call sites expanded so far (gives inlined locals distinct identifiers)
@@ -103,6 +140,16 @@ func Leaves(fn *ssa.Function, opt LeafOptions) ([]*Leaf, error) {
 		opt.cache = map[*ssa.Function][]*Leaf{}
 		opt.stack = map[*ssa.Function]bool{}
 		opt.site = new(int)
+	}
+	if opt.CutLoops {
+		if fn == nil || len(fn.Blocks) == 0 {
+			return nil, fmt.Errorf("function has no body")
+		}
+		if opt.MaxPaths == 0 {
+			opt.MaxPaths = 4096
+		}
+		opt.stack[fn] = true
+		return enumerate(fn, opt, &callCtx{}, true)
 	}
 	return leaves(fn, opt)
 }
@@ -138,10 +185,10 @@ func leaves(fn *ssa.Function, opt LeafOptions) ([]*Leaf, error) {
 	if opt.MaxPaths == 0 {
 		opt.MaxPaths = 4096
 	}
-	out, err := enumerate(fn, opt, nil)
+	out, err := enumerate(fn, opt, nil, false)
 	if _, isLoop := err.(*loopError); isLoop && opt.Inline != nil {
 		// a loop whose trip count is a constant of the function itself (a range over a literal table) unrolls
-		out2, err2 := enumerate(fn, opt, &callCtx{})
+		out2, err2 := enumerate(fn, opt, &callCtx{}, false)
 		if err2 == nil {
 			out, err = out2, nil
 		} else {
@@ -161,7 +208,7 @@ func leaves(fn *ssa.Function, opt LeafOptions) ([]*Leaf, error) {
 // whose condition stays symbolic runs into the per-block visit cap, which is an
 // error, never a truncation); φ-nodes are then bound to the term of the incoming
 // value at the time the edge is taken.
-func enumerate(fn *ssa.Function, opt LeafOptions, cx *callCtx) ([]*Leaf, error) {
+func enumerate(fn *ssa.Function, opt LeafOptions, cx *callCtx, cut bool) ([]*Leaf, error) {
 	var out []*Leaf
 	onPath := map[*ssa.BasicBlock]int{}
 	steps := 0
@@ -172,6 +219,7 @@ func enumerate(fn *ssa.Function, opt LeafOptions, cx *callCtx) ([]*Leaf, error) 
 		blocks []int
 		bind   map[ssa.Value]*Term
 		mem    localMem
+		cuts   []Cut
 	}
 	priv := map[ssa.Value]bool{}
 	var err error
@@ -213,7 +261,53 @@ func enumerate(fn *ssa.Function, opt LeafOptions, cx *callCtx) ([]*Leaf, error) 
 		defer func() { onPath[blk]-- }()
 		// resolve φ-nodes by the incoming edge
 		phi := st.phi
-		if pred != nil && cx != nil {
+		if cut && isLoopHeader(blk) {
+			// arrival at a loop header: the path ends here; on first arrival it is also continued with symbolic loop state
+			arr := &LoopEnd{Header: blk, State: map[*ssa.Phi]*Term{}}
+			for _, c := range st.cuts {
+				if c.Header == blk {
+					arr.Back = true
+				}
+			}
+			pi := -1
+			for i, p := range blk.Preds {
+				if p == pred {
+					pi = i
+				}
+			}
+			ob := NewBuilder(fn)
+			ob.Forward = opt.Forward
+			ob.InlineOK = opt.InlineOK
+			ob.Bind = st.bind
+			nb := make(map[ssa.Value]*Term, len(st.bind)+2)
+			for k, v := range st.bind {
+				nb[k] = v
+			}
+			for _, in := range blk.Instrs {
+				p, ok := in.(*ssa.Phi)
+				if !ok {
+					break
+				}
+				if pi >= 0 {
+					arr.State[p] = ob.Term(p.Edges[pi])
+				}
+				nb[p] = PhiVar(p)
+			}
+			pos := token.NoPos
+			for _, in := range blk.Instrs {
+				if in.Pos() != token.NoPos {
+					pos = in.Pos()
+					break
+				}
+			}
+			out = append(out, &Leaf{Guards: append([]*Term{}, st.guards...), Effects: st.eff, Blocks: append(append([]int{}, st.blocks...), blk.Index), Cuts: st.cuts, End: arr, Pos: pos})
+			if arr.Back {
+				return
+			}
+			st.bind = nb
+			st.mem = localMem{}
+			st.cuts = append(append([]Cut{}, st.cuts...), Cut{Header: blk, NG: len(st.guards), NE: len(st.eff)})
+		} else if pred != nil && cx != nil {
 			pi := -1
 			for i, p := range blk.Preds {
 				if p == pred {
@@ -345,7 +439,7 @@ func enumerate(fn *ssa.Function, opt LeafOptions, cx *callCtx) ([]*Leaf, error) 
 						if _, isLoop := cerr.(*loopError); isLoop && !opt.stack[callee] {
 							// a loop whose trip count is fixed by this call's arguments: enumerate the callee in context
 							opt.stack[callee] = true
-							cl, cerr = enumerate(callee, opt, &callCtx{args: args, off: off})
+							cl, cerr = enumerate(callee, opt, &callCtx{args: args, off: off}, false)
 							delete(opt.stack, callee)
 							tr = func(t *Term) *Term { return t }
 						}
@@ -430,13 +524,13 @@ func enumerate(fn *ssa.Function, opt LeafOptions, cx *callCtx) ([]*Leaf, error) 
 			last := blk.Instrs[len(blk.Instrs)-1]
 			switch t := last.(type) {
 			case *ssa.Return:
-				lf := &Leaf{Guards: append([]*Term{}, guards...), Pos: t.Pos(), Effects: eff, Blocks: blocks}
+				lf := &Leaf{Guards: append([]*Term{}, guards...), Pos: t.Pos(), Effects: eff, Blocks: blocks, Cuts: st.cuts}
 				for _, r := range t.Results {
 					lf.Ret = append(lf.Ret, b.Term(r))
 				}
 				out = append(out, lf)
 			case *ssa.Jump:
-				walk(blk.Succs[0], blk, state{phi, guards, eff, blocks, bind, mem})
+				walk(blk.Succs[0], blk, state{phi, guards, eff, blocks, bind, mem, st.cuts})
 			case *ssa.If:
 				c := b.Term(t.Cond)
 				if debugInline && onPath[blk] > 1 {
@@ -451,7 +545,7 @@ func enumerate(fn *ssa.Function, opt LeafOptions, cx *callCtx) ([]*Leaf, error) 
 					if !keep {
 						continue
 					}
-					walk(succ, blk, state{phi, gs, eff, blocks, bind, mem})
+					walk(succ, blk, state{phi, gs, eff, blocks, bind, mem, st.cuts})
 				}
 			case *ssa.Panic:
 				err = fmt.Errorf("%s: explicit panic at block %d", fn.String(), blk.Index)
@@ -474,13 +568,6 @@ func enumerate(fn *ssa.Function, opt LeafOptions, cx *callCtx) ([]*Leaf, error) 
 		return nil, err
 	}
 	return out, nil
-}
-
-func clipS(s string) string {
-	if len(s) > 120 {
-		return s[:120] + "..."
-	}
-	return s
 }
 
 // renameLocals shifts the identifiers of local allocations / unresolved values of an inlined callee so that
